@@ -152,6 +152,12 @@ _dispatch_transform_buffer_new(dispatch_transform_buffer_s *buffer,
 				free(buffer->start);
 			}
 		}
+		// `size` is only a hint for how much more will follow: allocate the
+		// output in pieces of at most BUFFER_MALLOC_MAX instead of failing
+		if (required <= BUFFER_MALLOC_MAX &&
+				size > BUFFER_MALLOC_MAX - required) {
+			size = BUFFER_MALLOC_MAX - required;
+		}
 		buffer->size = required + size;
 		buffer->start = NULL;
 		if (buffer->size > 0) {
@@ -310,7 +316,9 @@ _dispatch_transform_to_utf16(dispatch_data_t data, int32_t byteOrder)
 					sizeof(uint16_t), &dest_size)) {
 				return (bool)false;
 			}
-			if (!_dispatch_transform_buffer_new(&buffer, dest_size, 0)) {
+			// only the BOM is written right away, the rest is an estimate
+			if (!_dispatch_transform_buffer_new(&buffer, sizeof(uint16_t),
+					dest_size - sizeof(uint16_t))) {
 				return (bool)false;
 			}
 			// Insert BOM
@@ -418,7 +426,8 @@ _dispatch_transform_from_utf16(dispatch_data_t data, int32_t byteOrder)
 		if (offset == 0) {
 			size_t dest_size = howmany(size, 3) * 2;
 			// Assume first buffer will be mostly single-byte UTF-8 sequences
-			if (!_dispatch_transform_buffer_new(&buffer, dest_size, 0)) {
+			// (an estimate: nothing is required yet)
+			if (!_dispatch_transform_buffer_new(&buffer, 0, dest_size)) {
 				return (bool)false;
 			}
 		}
